@@ -74,6 +74,7 @@ type Scenario struct {
 	Max     int64  `json:"max"`
 	Callers int    `json:"callers"`
 	ParkAll bool   `json:"park_all"` // park at every hook (also under locks); else only at the default points
+	Loose   bool   `json:"loose,omitempty"` // fake connections may report the retryable dead error while their Run is alive
 	Ops     []Op   `json:"ops"`
 	Seed    uint64 `json:"seed,omitempty"` // random scenario: the ops are generated on the fly from this seed
 	Steps   int    `json:"steps,omitempty"`
@@ -136,6 +137,7 @@ type Sim struct {
 	T        time.Duration
 	closed   bool
 	readyPk  bool // park inside fake Ready() calls
+	loose    bool // see Scenario.Loose
 	lastMove time.Time
 }
 
@@ -372,7 +374,7 @@ func (f *fakeConn) Invoke(ctx context.Context, _ bin.Encoder, _ bin.Decoder) err
 	if out == "" {
 		out = "ok"
 	}
-	if out == "dead" && !f.exited {
+	if out == "dead" && !f.exited && !s.loose {
 		out = "err" // strict environment: a connection reports itself dead only once its Run has returned
 	}
 	s.mu.Unlock()
